@@ -54,12 +54,14 @@ def _clean_old(prefix, keep):
             shutil.rmtree(d, ignore_errors=True)
 
 
-def build_harness(flavour='c', ndebug=True, sanitize=True, harness='yh'):
-    """flavour: 'c' (libyaep) or 'cxx' (libyaep++).  Returns the path of the executable."""
+def build_harness(flavour='c', ndebug=True, sanitize=True, harness='yh', rename_default_alloc=False):
+    """flavour: 'c' (libyaep) or 'cxx' (libyaep++).  Returns the path of the executable.
+    rename_default_alloc: the malloc / free of the default tree allocator (parse_alloc_default in
+    yaep.c) go through the counting, failing wrappers as well (fault injection only)"""
     hsrc = os.path.join(VERIF, 'harness', harness + '.c')
     flags = list(BASE) + (['-DNDEBUG'] if ndebug else []) + (SAN if sanitize else [])
-    key = _hash_files(repo_sources() + [hsrc], flavour + ' '.join(flags))
-    name = '%s-%s-%s' % (harness, flavour, key)
+    key = _hash_files(repo_sources() + [hsrc], flavour + ' '.join(flags) + ('fi' if rename_default_alloc else ''))
+    name = '%s-%s%s-%s' % (harness, flavour, 'fi' if rename_default_alloc else '', key)
     out = os.path.join(WORK, name)
     exe = os.path.join(out, harness)
     if os.path.exists(exe):
@@ -75,7 +77,7 @@ def build_harness(flavour='c', ndebug=True, sanitize=True, harness='yh'):
     jobs = []
     if flavour == 'c':
         cc = 'gcc'
-        units = [('yaep.c', []), ('allocate.c', ALLOC_RENAME), ('hashtab.c', []), ('objstack.c', []), ('vlobject.c', [])]
+        units = [('yaep.c', ALLOC_RENAME[:1] + ALLOC_RENAME[3:] if rename_default_alloc else []), ('allocate.c', ALLOC_RENAME), ('hashtab.c', []), ('objstack.c', []), ('vlobject.c', [])]
         hflags = []
     else:
         cc = 'g++'
